@@ -330,6 +330,18 @@ theorem linv_step {log : Log} {s s' : State} (e : TEv) (hl : LInv log s) (h : st
         · intro hs; exact hcc (who_send hwho hs)
 
 
+theorem step_ret_ok (s s' : State) (t c x : Nat) (rs : List Bytes) (h : stepCaller s t c (.ret x (.ok rs)) = some s') :
+    ((s.callers c).pc = .done ∨ (s.callers c).pc = .rcheck) ∧ (s.callers c).failed = false := by
+  cases hpc : (s.callers c).pc <;> simp only [stepCaller, hpc] at h <;> try (simp at h)
+  · obtain ⟨⟨_, hr⟩, _⟩ := h
+    refine ⟨Or.inr rfl, ?_⟩
+    unfold result at hr
+    cases hf : (s.callers c).failed <;> simp [hf] at hr ⊢
+  · obtain ⟨hr, _⟩ := h
+    refine ⟨Or.inl rfl, ?_⟩
+    unfold result at hr
+    cases hf : (s.callers c).failed <;> simp [hf] at hr ⊢
+
 theorem linv_init (cfg : Cfg) (cbs : List Nat) : LInv [] { cfg := cfg, cbsReg := cbs } := by
   refine ⟨fun c _ a hc => ?_, fun c hp => ?_⟩
   · simp [isCallOf, evAt] at hc
